@@ -140,7 +140,7 @@ def failing_theorems(lean_file, log):
     return sorted(bad)
 
 
-def build(prop_id, bridge_modules=(), props_module=None):
+def build(prop_id, bridge_modules=(), props_modules=None):
     """Regenerate Extracted.lean from /repo, build, gate, audit.
     Returns BuildResult. Raises HarnessError only for infrastructure trouble
     (the model itself or the driver not compiling)."""
@@ -160,12 +160,17 @@ def build(prop_id, bridge_modules=(), props_module=None):
         if rc != 0:
             raise HarnessError('driver does not build:\n' + out[-4000:])
         # 2. property theorems
-        if props_module is None:
-            props_module = f'Gemato.Props.{prop_id}'
-        pfile = os.path.join(LEAN, props_module.replace('.', '/') + '.lean')
-        if os.path.exists(pfile):
-            names = [n for n in theorem_names(pfile)]
+        if props_modules is None:
+            props_modules = [f'Gemato.Props.{prop_id}']
+        audit = []     # (module, namespace, theorem)
+        for props_module in props_modules:
+            pfile = os.path.join(LEAN, props_module.replace('.', '/') + '.lean')
+            if not os.path.exists(pfile):
+                raise HarnessError(f'{pfile} missing')
+            names = theorem_names(pfile)
             res.obligations += [f'{props_module}:{n}' for n in names]
+            ns = _namespace_of(pfile)
+            audit += [(props_module, ns, n) for n in names]
             rc, out = _run(['lake', 'build', props_module], cwd=LEAN)
             res.log += out
             if rc != 0:
@@ -191,13 +196,12 @@ def build(prop_id, bridge_modules=(), props_module=None):
         if hits:
             raise HarnessError('grep gate: ' + '; '.join(hits[:5]))
         # 5. axiom audit of the property theorems
-        afile = os.path.join(LEAN, 'Gemato', 'Props', f'Audit{prop_id}.lean')
-        if os.path.exists(pfile):
-            names = theorem_names(pfile)
-            ns = _namespace_of(pfile)
+        if audit:
+            afile = os.path.join(LEAN, 'Gemato', 'Props', f'Audit{prop_id}.lean')
             with open(afile, 'w') as f:
-                f.write(f'import {props_module}\n')
-                for n in names:
+                for m in props_modules:
+                    f.write(f'import {m}\n')
+                for _m, ns, n in audit:
                     f.write(f'#print axioms {ns}{n}\n')
             rc, out = _run(['lake', 'env', 'lean', afile], cwd=LEAN)
             os.unlink(afile)
@@ -210,8 +214,8 @@ def build(prop_id, bridge_modules=(), props_module=None):
                 if extra:
                     raise HarnessError(f'theorem {m.group(1)} depends on axioms {sorted(extra)}')
             res.obligations.append('audit:axioms-subset-of-standard')
-            if len(res.axioms) != len(names):
-                raise HarnessError(f'axiom audit saw {len(res.axioms)} of {len(names)} theorems:\n{out[-2000:]}')
+            if len(res.axioms) != len(audit):
+                raise HarnessError(f'axiom audit saw {len(res.axioms)} of {len(audit)} theorems:\n{out[-2000:]}')
     finally:
         fcntl.flock(lockf, fcntl.LOCK_UN)
         lockf.close()
@@ -406,7 +410,7 @@ class Ctx:
             'coverage': {
                 'obligations': len(obligations),
                 'discharged': len(obligations) - len(failed),
-                'checker_cmd': f'cd lean && lake build Gemato.Props.{self.prop} && lake env lean <#print axioms of every theorem in Props/{self.prop}.lean>; then ./check {self.prop} (correspondence)',
+                'checker_cmd': f'cd lean && lake build <Props modules of {self.prop}> <Bridge modules> && lake env lean <#print axioms of every property theorem>; then ./check {self.prop} (T2/T3 correspondence + oracle)',
                 'trusted_base': [
                     'Lean 4.33.0 kernel',
                     'axioms: subset of {propext, Classical.choice, Quot.sound} (audited per theorem this run)',
